@@ -186,7 +186,9 @@ Section Inv5.
   Qed.
 
   (* ---- generic preservation of the extras ---- *)
-  Definition CT : world -> Prop := fun _ => True.
+  (* at a crash point: nothing that existed at entry has been touched *)
+  Definition Ycr : stageT := fun um s f tr => olds_same s.
+  Definition CT : world -> Prop := LT Ycr.
   Definition EF : exn -> world -> Prop := fun _ => LT Y_fail.
   Definition EM : exn -> world -> Prop := fun _ => LT Y_mid.
 
@@ -235,9 +237,24 @@ Section Inv5.
     (phi -> triple P m Q E C) -> triple (fun w => P w /\ phi) m Q E C.
   Proof. intros H w (Hw & Hphi). apply (H Hphi w Hw). Qed.
 
-  Lemma weakenC {A} (m : M A) (P : world -> Prop) (Q : A -> world -> Prop) (E : exn -> world -> Prop) (C : world -> Prop) :
-    triple P m Q E C -> triple P m Q E CT.
-  Proof. intro H. eapply t_conseq; [exact H| | | |]; auto. intros; exact I. Qed.
+  Lemma weakenC {A} (Pst : stageT) (m : M A) (P : world -> Prop) (Q : A -> world -> Prop) (E : exn -> world -> Prop) :
+    (forall um s f tr, Pst um s f tr -> olds_same s) ->
+    triple P m Q E (LT Pst) -> triple P m Q E CT.
+  Proof.
+    intros Himp H. eapply t_conseq; [exact H| | | |]; auto.
+    intros w (Hw & R). split; [eapply Himp; exact Hw|exact R].
+  Qed.
+
+  Lemma ours_olds (P : stage) G um s f tr : Y_ours P G um s f tr -> olds_same s.
+  Proof. intros (_ & _ & (H & _) & _). exact H. Qed.
+  Lemma init1_olds um s f tr : Y_init1 um s f tr -> olds_same s.
+  Proof. intros (_ & _ & (H & _) & _). exact H. Qed.
+  Lemma init2_olds um s f tr : Y_init2 um s f tr -> olds_same s.
+  Proof. intros (_ & _ & (H & _) & _). exact H. Qed.
+  Lemma postlink_olds G um s f tr : Y_postlink G um s f tr -> olds_same s.
+  Proof. intros (_ & _ & H & _). exact H. Qed.
+  Lemma mid_olds um s f tr : Y_mid um s f tr -> olds_same s.
+  Proof. intros (_ & _ & (H & _) & _). exact H. Qed.
 
   (* ---- file events on our part file ---- *)
   Lemma tr5_file (P Q : stage) G e forced :
@@ -245,7 +262,7 @@ Section Inv5.
     (forall s f sc, P s f sc -> St_any s f sc) -> sem_prem c s0 sched P Q e ->
     triple (LT (Y_ours P G)) (prim_f e forced) (fun _ => LT (Y_ours Q G)) EM CT.
   Proof.
-    intros He Hst Hwf Hany Hsem. apply weakenC with (C := LT (Y_ours P G)).
+    intros He Hst Hwf Hany Hsem. apply (weakenC (Y_ours P G)); [apply ours_olds|].
     apply prim_ruleT.
     - apply ours_stable; auto.
     - intros um s f tr errno (Hu & HP & HX & Ho & _).
@@ -287,7 +304,7 @@ Section Inv5.
     c_overwrite_part c = true ->
     triple (LT Y_init1) (prim_f (EUnlink part) forced) (fun _ => LT Y_init2) EF CT.
   Proof.
-    intro Howp. apply weakenC with (C := LT Y_init1). apply prim_ruleT; [apply init1_stable| |].
+    intro Howp. apply (weakenC Y_init1); [apply init1_olds|]. apply prim_ruleT; [apply init1_stable| |].
     - intros um s f tr errno (Hu & Hi & (Ho & Hf) & Ht & Hp). subst tr. cbn [after_fault fst snd].
       pose proof (init_any c s0 sched _ _ _ Hi) as Ha.
       split; [rewrite scan_tr_failed; left; exact Ha|]. split; [exact Ho|]. split.
@@ -309,7 +326,7 @@ Section Inv5.
     triple (LT Y_init2) (prim_f (EOpen part true perms) forced)
            (fun _ => LT (Y_ours (St_open []) (fun m => m = N.ldiff perms umask))) EF CT.
   Proof.
-    apply weakenC with (C := LT Y_init2). apply prim_ruleT; [apply init2_stable| |].
+    apply (weakenC Y_init2); [apply init2_olds|]. apply prim_ruleT; [apply init2_stable| |].
     - intros um s f tr errno H. cbn [after_fault fst snd]. apply fail_of_init2. exact H.
     - intros um s f tr H. pose proof H as (Hu & Hi & (Ho & Hf) & Hp).
       pose proof (sem_open c s0 sched Hdp Hpd perms um s f (scan_tr tr) Hi) as R.
@@ -328,7 +345,7 @@ Section Inv5.
     triple (LT (Y_ours (St_open acc) G)) (prim_f (EChmod part perms) forced)
            (fun _ => LT (Y_ours (St_open acc) (fun m => m = perms))) EM CT.
   Proof.
-    apply weakenC with (C := LT (Y_ours (St_open acc) G)). apply prim_ruleT.
+    apply (weakenC (Y_ours (St_open acc) G)); [apply ours_olds|]. apply prim_ruleT.
     - apply ours_stable; [apply open_stable; auto|]. intros s f sc H. apply H.
     - intros um s f tr errno (Hu & HP & HX & Ho & _). cbn [after_fault fst snd].
       apply any_mid; auto. eapply open_any; eauto.
@@ -345,7 +362,7 @@ Section Inv5.
   Lemma tr5_rename G forced :
     triple (LT (Y_ours (St_ready new) G)) (prim_f (ERename part dest) forced) (fun _ => LT (Y_done G)) EM CT.
   Proof.
-    apply weakenC with (C := LT (Y_ours (St_ready new) G)). apply prim_ruleT.
+    apply (weakenC (Y_ours (St_ready new) G)); [apply ours_olds|]. apply prim_ruleT.
     - apply ours_stable; [apply ready_stable; auto|]. intros s f sc H. apply H.
     - intros um s f tr errno (Hu & HP & HX & Ho & _). cbn [after_fault fst snd].
       apply any_mid; auto. eapply ready_any; eauto.
@@ -361,7 +378,7 @@ Section Inv5.
   Lemma tr5_link G forced :
     triple (LT (Y_ours (St_ready new) G)) (prim_f (ELink part dest) forced) (fun _ => LT (Y_postlink G)) EM CT.
   Proof.
-    apply weakenC with (C := LT (Y_ours (St_ready new) G)). apply prim_ruleT.
+    apply (weakenC (Y_ours (St_ready new) G)); [apply ours_olds|]. apply prim_ruleT.
     - apply ours_stable; [apply ready_stable; auto|]. intros s f sc H. apply H.
     - intros um s f tr errno (Hu & HP & HX & Ho & _). cbn [after_fault fst snd].
       apply any_mid; auto. eapply ready_any; eauto.
@@ -378,7 +395,7 @@ Section Inv5.
   Lemma tr5_unlink_post G forced :
     triple (LT (Y_postlink G)) (prim_f (EUnlink part) forced) (fun _ => LT (Y_done G)) EM CT.
   Proof.
-    apply weakenC with (C := LT (Y_postlink G)). apply prim_ruleT; [apply postlink_stable| |].
+    apply (weakenC (Y_postlink G)); [apply postlink_olds|]. apply prim_ruleT; [apply postlink_stable| |].
     - intros um s f tr errno (Hu & HP & Ho & Hof & _ & (tr0 & ->)). cbn [after_fault fst snd].
       split; [auto|]. rewrite scan_tr_failed. split; [right; exact HP|]. split; [|split; [auto|]].
       + split; [exact Ho|]. destruct HP as (_ & _ & -> & _). exact I.
@@ -448,7 +465,7 @@ Section Inv5.
   Lemma tr5_weak e forced :
     weak c e -> triple (LT Y_mid) (prim_f e forced) (fun _ => LT Y_mid) EM CT.
   Proof.
-    intro Hw. apply weakenC with (C := LT Y_mid). apply prim_ruleT; [apply mid_stable| |].
+    intro Hw. apply (weakenC Y_mid); [apply mid_olds|]. apply prim_ruleT; [apply mid_stable| |].
     - intros. apply mid_weak_fault; auto.
     - intros um s f tr H. pose proof (mid_weak_sem um e s f tr Hw H) as R.
       destruct (fst (fst (sem um e s f))); exact R.
@@ -466,7 +483,7 @@ Section Inv5.
   Proof.
     unfold rm_part_file. destruct (c_rm_part_on_exc c) eqn:Erm.
     - eapply t_catch with (E' := fun _ => LT Y_cleaned).
-      + apply weakenC with (C := LT Y_mid). apply prim_ruleT; [apply mid_stable| |].
+      + apply (weakenC Y_mid); [apply mid_olds|]. apply prim_ruleT; [apply mid_stable| |].
         * intros um s f tr errno H. split; [apply mid_weak_fault; [reflexivity|exact H]|].
           right. right. apply unlink_failed_head.
         * intros um s f tr H. pose proof (mid_weak_sem um (EUnlink part) s f tr eq_refl H) as R.
@@ -714,7 +731,7 @@ Section Inv5.
         intros w0 (((Hu & HS & (Ho & _) & Hof & Hg) & Hc) & R). split; [|exact R].
         split; [exact HS|]. split; [exact Ho|]. split; [exact Hg|]. right. right. right. right. auto. }
       apply T. exact Hb.
-    - exact I.
+    - exact Hb.
   Qed.
 
 End Inv5.
@@ -891,4 +908,21 @@ Proof.
   - left. exact Hn.
   - right. auto.
   - destruct Hc as [A|[A|A]]; [congruence|left; exact A|congruence].
+Qed.
+
+(* at EVERY crash point and in every outcome: no inode that existed at entry has been written to,
+   and every directory name other than destination and part file is bound as at entry *)
+Lemma crash_olds_lemma c ops raises s0 umask crash sched o w :
+  c_dest c <> c_part c -> same_dir (c_part c) = true -> wf s0 ->
+  run_save c ops raises s0 umask crash sched = (o, w) ->
+  olds_same c s0 (w_fs w).
+Proof.
+  intros Hdp Hpd Hwf Hr. unfold run_save in Hr.
+  assert (Hst : LT c sched (Y_start s0 umask) (init_world s0 umask (c_dest c) crash sched)).
+  { split; [|auto]. cbn. repeat split; auto. }
+  pose proof (save5 c s0 sched (new_content ops) umask Hdp Hpd Hwf ops raises eq_refl _ Hst) as H.
+  rewrite Hr in H. destruct o as [x|e|].
+  - destruct H as ((_ & _ & Ho & _) & _). exact Ho.
+  - destruct H as ((_ & Ho & _) & _). exact Ho.
+  - destruct H as (Ho & _). exact Ho.
 Qed.
